@@ -24,6 +24,16 @@ CLAIMED["C16"] = dict(
    note="Partial by nature: the theorems cover traversal logic; crashes, memory and wall-clock of the real processes are observed (10 s / 1-6 GiB limits), not proved. Trusted: Coq kernel, the graph extraction from descriptors, process sandboxing.",
    technique="Coq proof (termination measure / non-termination by induction on fuel) + sandboxed plugin runs",
    ref="§5.C16")
+CLAIMED["C11"] = dict(
+   text="Coq model of the decision logic of the emitted body readers, the shared structure of the custom UnmarshalJSON emitters (conversion errors dropped, raw value handed to protojson) and the Go client's response handling (coq/theories/Malformed.v); theorems C11_total, C11_no_partial (outside three defect classes the server dispatches exactly the bodies that were read and decoded completely under the declared formats), C11_clients_total. Every run sends mutated JSON/binary bodies (truncation, wrong types per field, duplicate keys, deep nesting, huge numbers, invalid UTF-8, invalid wire data, top-level null/array/scalar), failing body readers (fault sequences) and canned server responses to the generated code of every feature package that builds; the harness's own decoders classify each body, the model predicts dispatch/reject, and a strict oracle compares what was dispatched with a reference decoding.",
+   note="Partial by nature: panics/hangs of the real process cannot be exhibited by a total model and are searched for (recover + deadline in the runner) - that part is exploration, not proof. Text-level conversions (hex/base64/dates/JSON syntax) are inputs of the model computed by the harness with Go's standard library. Messages whose custom decoder stages are not reproduced by the reference reading (nullable, empty_behavior, flatten, oneof, unwrap) get the robustness oracle only.",
+   technique="Coq proof over the decision model + mutation/fault-injection correspondence",
+   ref="§5.C11")
+CLAIMED["C17"] = dict(
+   text="Coq model of the shared state touched by concurrent calls (validator singleton behind sync.Once, per-route configuration passed by value at registration, client default headers vs per-call options) in coq/theories/Conc.v with C17_isolation proved for EVERY schedule (induction over the schedule with a one-instance invariant), C17_routes_unshared, C17_call_options_local. Every run builds the generated server and client with the Go race detector, issues random multisets of calls over multi-service schemas at parallelism 1-32 against ONE shared server mux and ONE shared client per service, and compares each call's result and headers with the same call issued alone; race reports or a crash of the process are violations.",
+   note="Partial by nature: the Go memory model, net/http and protobuf internals are not modelled; the race detector and the isolation comparison are search, not proof. Trusted: Coq kernel, the runner.",
+   technique="Coq proof (invariant over all interleavings) + race-detector soak with isolation comparison",
+   ref="§5.C17")
 REASONS = {}
 def main():
     checks = []
